@@ -73,12 +73,16 @@ def heap(objs):
     return {o.name: {k: proj(v) for k, v in sorted(o.fields.items()) if k not in MEMO_FIELDS} for o in objs}
 
 
+HARVEST = []      # attribute names built from the constants the tree tests names against (common.harvested_names), set by run()
+
+
 class G:
-    """universe U = [a, b, c]; a->b, b->c (directed), a--c (undirected), self-loop on a, a->x with x outside; laws with a whitelist."""
+    """universe U = [a, b, c]; a->b, b->c (directed), a--c (undirected), self-loop on a, a->x with x outside; laws with a whitelist.
+    Every vertex also carries one dynamic attribute per harvested name."""
 
     def __init__(self, h, caching, unknown_link=False):
         h.reset()
-        self.V = V = {n: h.new("Vertex", n, attributes=DictV([["name", n]])) for n in "abcx"}
+        self.V = V = {n: h.new("Vertex", n, attributes=DictV([["name", n]] + [[k, f"value-of-{k}"] for k in HARVEST])) for n in "abcx"}
         self.L = [h.new("DirectedEdge", "e_ab", V["a"], V["b"]), h.new("DirectedEdge", "e_bc", V["b"], V["c"]), h.new("UnDirectedEdge", "e_ac", V["a"], V["c"]),
                   h.new("DirectedEdge", "e_aa", V["a"], V["a"]), h.new("DirectedEdge", "e_ax", V["a"], V["x"]), h.new("DirectedEdge", "e_bN", V["b"], None)]
         if unknown_link:
@@ -210,6 +214,9 @@ def run(ctx):
     res.assumptions = ["callbacks and third-party libraries do not themselves mutate the graph", "_resolve_options compiling show_attrs inside the caller's *options* dict is outside the property (not a vertex, link or universe)",
                        "nrpickler.dumps is evaluated with dill.Pickler replaced by a stand-in that walks the object graph through the object protocol (class + instance state)"]
     rec = c15.Recorder(None)
+    HARVEST[:] = common.harvested_names(ctx)
+    if HARVEST:
+        res.note(f"vertices carry dynamic attributes named after constants the tree compares names with: {HARVEST}")
     h = H(ctx.src, ["edgegraph.traversal.helpers", "edgegraph.traversal.breadthfirst", "edgegraph.traversal.depthfirst", "edgegraph.output.plaintext"])
     h.w.ext_overrides["pyvis.network.Network"] = Builtin("pyvis.network.Network", lambda I, *a, **k: rec.network(I, *a, **k))
     stub = h.w.load_text("verif_c13_pickler", PICKLER_STUB).globals
@@ -294,6 +301,9 @@ def run(ctx):
               "edgegraph.traversal.helpers.find_links", "edgegraph.traversal.breadthfirst.ibft", "edgegraph.traversal.depthfirst._dft_recur", "edgegraph.traversal.depthfirst.idft_iterative"):
         structural.temp_rule(ctx, q)
     structural.memo_on_success(ctx)
+    from rules import hist
+    hist.run(ctx, res, 'C13')       # composition: histories through the public API against the reference model (rules/hist.py)
+    common.vacuity(res, "HISTORY", 10000)
     common.vacuity(res, "FAULT-SWEEP", 150)
     res.analysed = common.analysed(ctx, sorted({q for _, q, _, _ in entry_points(h, rec)}))
     res.explanation = "For every entry point and every fault position the graph's projected heap is unchanged and the repeated call gives the fault-free answer."
